@@ -282,10 +282,13 @@ def structure_ok(src, Model):
     return problems
 
 
+TIGHT = {'on': False}      # render the next program without any blanks (long unbroken runs of text in the generated Fortran)
+
+
 def one_program(ctx, prog, rng, workdir, tag, has_literals, depth=0, fixed=None):
     import fsic
     from fsic.fortran import build_fortran_definition
-    script = gen.render_program(prog)
+    script = gen.render_program(prog, gen.Layout(__import__('random').Random(0), noise=0.0, tight=True)) if TIGHT['on'] else gen.render_program(prog)
     case = {'script': script, 'program': gen.to_json(prog), 'flavour': flavour(ctx)}
     try:
         symbols = fsic.parse_model(script)
@@ -461,9 +464,13 @@ def run_shard(ctx):
             prog = rp.program()
             if gen.classify(prog).reject:
                 continue
-            script = gen.render_program(prog)
+            TIGHT['on'] = i % 4 == 1 or (big and i % 2 == 0)
+            script = gen.render_program(prog, gen.Layout(__import__('random').Random(0), noise=0.0, tight=True)) if TIGHT['on'] else gen.render_program(prog)
             ctx.evaluation(script, nontrivial=True, sample={'script': script, 'literals': literals, 'flavour': flavour(ctx)})
-            r = one_program(ctx, prog, rng, workdir, f'm{ctx.shard}_{i}', has_literals=literals)
+            try:
+                r = one_program(ctx, prog, rng, workdir, f'm{ctx.shard}_{i}', has_literals=literals)
+            finally:
+                TIGHT['on'] = False
             ctx.seen('outcomes', str(r))
             ctx.count('programs')
         exact_tolerance(ctx, rng, workdir)
@@ -480,6 +487,23 @@ def run_shard(ctx):
             P([E(V('Y'), C('max', [V('X'), C('min', [V('Z'), C('exp', [gen.Neg(C('abs', [V('W')]))])])]))]),
             P([E(V('Y'), B('+', B('*', V('b', 'param'), V('Y', off=-1)), V('e', 'error')))]),
         ]
+        # long statements written without a single blank (the generated Fortran then has long unbroken runs to wrap)
+        names_ = ['C', 'G', 'YD', 'W', 'V', 'Zz', 'T', 'H_h', 'x1', 'Pin', 'origin', 'k9']
+        long_sum = V(names_[0])
+        for j, nm in enumerate(names_[1:]):
+            long_sum = B('+-*'[j % 3], long_sum, V(nm, off=[0, -1, 0, 1][j % 4]))
+        tight_progs = [P([E(V('Y'), long_sum)]), P([E(V('Y'), B('/', B('*', gen.Paren(B('+', V('C'), V('G'))), gen.Paren(B('+', V('W'), V('V', off=-1)))), gen.Paren(B('+', V('T'), V('Zz'))))),
+                                                     E(V('Q'), long_sum)])]
+        for k, prog in enumerate(tight_progs):
+            if ctx.mine(k) or ctx.mine(k + 2):
+                TIGHT['on'] = True
+                try:
+                    script = gen.render_program(prog, gen.Layout(__import__('random').Random(0), noise=0.0, tight=True))
+                    ctx.evaluation(script, nontrivial=True)
+                    one_program(ctx, prog, rng, workdir, f't{ctx.shard}_{k}', has_literals=False)
+                    ctx.count('programs')
+                finally:
+                    TIGHT['on'] = False
         for k, prog in enumerate(corner):
             if ctx.mine(k) or ctx.mine(k + 1):
                 script = gen.render_program(prog)
